@@ -82,7 +82,7 @@ theorem noteEvent_status (k s ev) : Rel (statusPre A) (noteEvent k s ev) := by
   unfold noteEvent
   status_walk []
 
-theorem restageRetry_status (k idx) : Rel (statusPre A) (restageRetry k idx) := by
+theorem restageRetry_status (k idx o) : Rel (statusPre A) (restageRetry k idx o) := by
   unfold restageRetry
   status_walk []
 
@@ -104,7 +104,7 @@ theorem updateTaskStateAux_status (fuel k ev) (hF : A .failed = true) : Rel (sta
   | zero => unfold updateTaskStateAux; exact Rel.throw _
   | succ n ih =>
     unfold updateTaskStateAux
-    status_walk [ih _ _, ensureRecord_status E _ _ _ _ hF, noteEvent_status _ _ _ , restageRetry_status _ _ , completedRetryDecision_status E _ _ _ _ _ hF, evalTransitions_status E _ _ _ _ hF, markTermIfCompleted_status _ ]
+    status_walk [ih _ _, ensureRecord_status E _ _ _ _ hF, noteEvent_status _ _ _ , restageRetry_status _ _ _ , completedRetryDecision_status E _ _ _ _ _ hF, evalTransitions_status E _ _ _ _ hF, markTermIfCompleted_status _ ]
 
 theorem updateTaskState_status (k ev) (hF : A .failed = true) : Rel (statusPre A) (updateTaskState E k ev) :=
   updateTaskStateAux_status E 3 k ev hF
